@@ -42,6 +42,7 @@ type Path struct {
 	ExitInstr ssa.Instruction
 	StopBlock *ssa.BasicBlock
 	Blocks    []int
+	KeyTerm   map[string]*Term // shared: the term behind every assumption key
 }
 
 // Assumed returns the assumed truth of a condition key (normalised) and whether it was assumed.
@@ -131,6 +132,7 @@ type walker struct {
 	paths []*Path
 	over  bool
 	local map[*ssa.Alloc]bool
+	keyTerm map[string]*Term
 }
 
 // WalkFunc enumerates the abstract paths of fn from its entry.
@@ -149,7 +151,7 @@ func WalkFrom(fn *ssa.Function, start, prev *ssa.BasicBlock, cfg WalkCfg) ([]*Pa
 	if cfg.MaxVisits == 0 {
 		cfg.MaxVisits = 2
 	}
-	w := &walker{fn: fn, cfg: cfg, tb: NewTB(), local: map[*ssa.Alloc]bool{}}
+	w := &walker{fn: fn, cfg: cfg, tb: NewTB(), local: map[*ssa.Alloc]bool{}, keyTerm: map[string]*Term{}}
 	for _, b := range fn.Blocks {
 		for _, in := range b.Instrs {
 			if a, ok := in.(*ssa.Alloc); ok && isLocalCell(a) {
@@ -196,7 +198,7 @@ func (w *walker) emit(s *wstate, exit string, in ssa.Instruction, ret []AV, stop
 		w.over = true
 		return
 	}
-	w.paths = append(w.paths, &Path{Asg: s.asg, Order: s.order, Effects: s.effects, Exit: exit, Ret: ret, ExitInstr: in, StopBlock: stop, Blocks: s.blocks})
+	w.paths = append(w.paths, &Path{Asg: s.asg, Order: s.order, Effects: s.effects, Exit: exit, Ret: ret, ExitInstr: in, StopBlock: stop, Blocks: s.blocks, KeyTerm: w.keyTerm})
 }
 
 func (w *walker) val(s *wstate, v ssa.Value) AV {
@@ -315,11 +317,12 @@ func (w *walker) branch(s *wstate, b *ssa.BasicBlock, in *ssa.If, depth int) {
 		}
 		return
 	}
-	// finite-domain fork on the first unassigned atom inside the condition
+	// finite-domain fork on the first unassigned atom inside the (normalised) condition
 	if w.cfg.Domain != nil {
 		var atom *Term
 		var dom []constant.Value
-		av.T.Walk(func(x *Term) bool {
+		nk, _ := normCond(av.T)
+		nk.Walk(func(x *Term) bool {
 			if atom != nil {
 				return false
 			}
@@ -340,6 +343,7 @@ func (w *walker) branch(s *wstate, b *ssa.BasicBlock, in *ssa.If, depth int) {
 				n := s.clone()
 				n.asg[atom.String()] = d
 				n.order = append(n.order, atom.String())
+				w.keyTerm[atom.String()] = atom
 				// undo the visit bookkeeping of this block for the re-dispatch
 				w.branch(n, b, in, depth)
 			}
@@ -355,6 +359,7 @@ func (w *walker) branch(s *wstate, b *ssa.BasicBlock, in *ssa.If, depth int) {
 		n := s.clone()
 		n.asg[key.String()] = constant.MakeBool(kv)
 		n.order = append(n.order, key.String())
+		w.keyTerm[key.String()] = key
 		if truth {
 			w.block(n, b.Succs[0], b, depth+1)
 		} else {
